@@ -12,6 +12,7 @@ import (
 	"strconv"
 	"strings"
 	"sync"
+	"sync/atomic"
 	"testing"
 	"testing/synctest"
 	"time"
@@ -73,17 +74,24 @@ func runScenario(t *testing.T, sc scenario) []run {
 			case "call":
 				// n simultaneous callers at one (virtual) instant
 				res := make([]int, s.N)
-				var wg sync.WaitGroup
+				var wg, ready sync.WaitGroup
+				var gate int32
 				for i := 0; i < s.N; i++ {
 					i := i
 					wg.Add(1)
+					ready.Add(1)
 					go func() {
 						defer wg.Done()
+						ready.Done()
+						for atomic.LoadInt32(&gate) == 0 { // released together
+						}
 						if lim.GetOrDefault("s").TryAcquire() {
 							res[i] = 1
 						}
 					}()
 				}
+				ready.Wait()
+				atomic.StoreInt32(&gate, 1)
 				wg.Wait()
 				now := time.Since(start).Milliseconds()
 				// order inside one instant is irrelevant to the clauses except the idle clause, which wants the granted ones first
@@ -104,6 +112,17 @@ func runScenario(t *testing.T, sc scenario) []run {
 				lim.Sync(spec(q, b, other))
 				cur = run{Qps: q, Burst: b}
 				// the new run's clock starts now: times stay absolute, the window clause only looks inside a run
+			case "recreate":
+				// the schema is deleted and created again (or its type changed and changed back): a NEW bucket, a new run
+				runs = append(runs, cur)
+				if s.N%2 == 0 {
+					lim.Sync(proxyv1alpha1.FlowControl{})
+				} else {
+					lim.Sync(proxyv1alpha1.FlowControl{Schemas: []proxyv1alpha1.FlowControlSchema{{Name: "s",
+						FlowControlSchemaConfiguration: proxyv1alpha1.FlowControlSchemaConfiguration{MaxRequestsInflight: &proxyv1alpha1.MaxRequestsInflightFlowControlSchema{Max: 1}}}}})
+				}
+				lim.Sync(spec(q, b, other))
+				cur = run{Qps: q, Burst: b}
 			case "noop":
 				// a sync that does not change this schema (another schema is added/removed) must not refill it
 				other = !other
